@@ -51,7 +51,7 @@ def _tscale(spec):
     return m
 
 
-def run(spec0, rep, steps, tol=1e-9, direct=True, ffp=False):
+def run(spec0, rep, steps, tol=1e-11, direct=True, ffp=False):
     """returns (msgs, info) ; info: squares, excluded, ratio, chis"""
     msgs = []
     info = {"squares": 0, "excluded": 0, "ratio": 0.0, "states": 0}
